@@ -133,3 +133,54 @@ V('H2_float_len_table', ['C11', 'C02', 'C15'], 'bits.py', "if length is None or 
 S('H5_S_positional_ctor', ['C11'], 'mxfp.py', "e2m1mxfp_fmt = MXFPFormat(exp_bits=2, mantissa_bits=1, bias=1, mxfp_overflow='saturate')", "e2m1mxfp_fmt = MXFPFormat(2, 1, 1, 'saturate')")
 S('H5_S_clamp_hex', ['C11'], 'mxfp.py', "self.pos_clamp_value = 0b01111110  # 448", "self.pos_clamp_value = 0x7e")
 S('H5_S_shift_lines_mxfp', ['C11'], 'mxfp.py', fn=shift_lines)
+
+# ------------------------------------------------------------------ C04 / A
+V('A2_bitarray_no_claim', ['C04'], 'bitarray_.py', "        if self._bitstore.immutable:\n            self._bitstore = self._bitstore._copy()\n            self._bitstore.immutable = False\n\n    def copy(",
+  "        pass\n\n    def copy(", ['A2'])
+V('A2_bitstream_no_claim', ['C04'], 'bitstream.py', "        if self._bitstore.immutable:\n            self._bitstore = self._bitstore._copy()\n            self._bitstore.immutable = False\n\n    def __copy__(self) -> BitStream:",
+  "\n    def __copy__(self) -> BitStream:", ['A2'])
+V('A2_claim_keeps_flag', ['C04'], 'bitarray_.py', "            self._bitstore = self._bitstore._copy()\n            self._bitstore.immutable = False\n\n    def copy(",
+  "            self._bitstore = self._bitstore._copy()\n\n    def copy(", ['A2'])
+V('A1_getitem_whole_slice_shares', ['C04'], 'bits.py', "        bs = super().__new__(self.__class__)\n        bs._bitstore = self._bitstore.getslice_withstep(key)\n        return bs",
+  "        bs = super().__new__(self.__class__)\n        bs._bitstore = self._bitstore if key == slice(None) else self._bitstore.getslice_withstep(key)\n        return bs", ['A1'])
+V('A1_bitstream_copy_shares', ['C04'], 'bitstream.py', "        s_copy._bitstore = self._bitstore.copy()", "        s_copy._bitstore = self._bitstore", ['A1'])
+V('A1_bitarray_copy_uses_copy', ['C04'], 'bitarray_.py', "        s_copy._bitstore = self._bitstore._copy()\n        assert s_copy._bitstore.immutable is False", "        s_copy._bitstore = self._bitstore", ['A1'])
+V('A1_ctor_from_bits_shares', ['C04'], 'bits.py', "            self._bitstore = s._bitstore.copy()", "            self._bitstore = s._bitstore", ['A1', 'A7'])
+V('A1__copy_shares', ['C04', 'C16'], 'bits.py', "        s_copy = self.__class__()\n        s_copy._bitstore = self._bitstore._copy()\n        return s_copy",
+  "        s_copy = self.__class__()\n        s_copy._bitstore = self._bitstore.copy()\n        return s_copy", ['A1', 'A10'])
+V('A1_slice_shares_when_whole', ['C04'], 'bits.py', "        bs = self.__class__()\n        bs._bitstore = self._bitstore.getslice(start, end)\n        return bs",
+  "        bs = self.__class__()\n        bs._bitstore = self._bitstore if (start, end) == (0, len(self)) else self._bitstore.getslice(start, end)\n        return bs", ['A1'])
+V('A1_and_same_object_shares', ['C04', 'C16'], 'bits.py', "        if bs is self:\n            return self.copy()\n        bs = Bits._create_from_bitstype(bs)\n        s = object.__new__(self.__class__)\n        s._bitstore = self._bitstore & bs._bitstore",
+  "        if bs is self:\n            s = object.__new__(self.__class__)\n            s._bitstore = self._bitstore\n            return s\n        bs = Bits._create_from_bitstype(bs)\n        s = object.__new__(self.__class__)\n        s._bitstore = self._bitstore & bs._bitstore", ['A1'])
+V('A8_store_copy_returns_self', ['C04', 'C16'], 'bitstore.py', "        \"\"\"Always creates a copy, even if instance is immutable.\"\"\"\n        return BitStore(self._bitarray)",
+  "        \"\"\"Always creates a copy, even if instance is immutable.\"\"\"\n        return self", ['A8'])
+V('A8_copy_ignores_flag', ['C04'], 'bitstore.py', "        return self if self.immutable else self._copy()", "        return self", ['A8'])
+V('A8_init_aliases_bitarray', ['C04'], 'bitstore.py', "        self._bitarray = bitarray.bitarray(initializer)\n        self.immutable = immutable",
+  "        self._bitarray = initializer if isinstance(initializer, bitarray.bitarray) else bitarray.bitarray(initializer)\n        self.immutable = immutable", ['A8'])
+V('A8_and_returns_operand', ['C04', 'C16'], 'bitstore.py', "        return BitStore(self._bitarray & other._bitarray)", "        self._bitarray &= other._bitarray\n        return self", ['A8'])
+V('A7_bytearray_via_frombuffer', ['C04'], 'bits.py', "            self._bitstore = BitStore.frombytes(bytearray(s))", "            self._bitstore = BitStore.frombuffer(s)", ['A7'])
+V('A7_mmap_writable', ['C04'], 'bits.py', "m = mmap.mmap(source.fileno(), 0, access=mmap.ACCESS_READ)", "m = mmap.mmap(source.fileno(), 0, access=mmap.ACCESS_COPY)", ['A7'])
+V('A5_bits_gets_mutator', ['C04', 'C20'], 'bits.py', "    def copy(self: TBits) -> TBits:\n        \"\"\"Return a copy of the bitstring.\"\"\"",
+  "    def zero(self) -> None:\n        self._bitstore.setall(0)\n\n    def copy(self: TBits) -> TBits:\n        \"\"\"Return a copy of the bitstring.\"\"\"", ['A5'])
+V('A5_mul_in_place', ['C04', 'C01'], 'bits.py', "        s = self._copy()\n        s._imul(n)\n        return s", "        s = self\n        s._imul(n)\n        return s", ['A5'])
+V('A5_invert_in_place', ['C04', 'C16'], 'bits.py', "        s = self._copy()\n        s._invert_all()\n        return s", "        self._invert_all()\n        return self", ['A5'])
+V('A6_tobitarray_internal', ['C04'], 'bits.py', "            return self._bitstore._bitarray.copy()", "            return self._bitstore._bitarray", ['A6'])
+V('A1_setbits_shares_again', ['C04'], 'bits.py', "        self._bitstore = bs._bitstore._copy()\n", "        self._bitstore = bs._bitstore\n", ['A1'])
+V('A1_setbits_maybe_shared', ['C04'], 'bits.py', "        self._bitstore = bs._bitstore._copy()\n", "        self._bitstore = bs._bitstore.copy()\n", ['A1'])
+V('A1_fromstring_cached_in_mutable', ['C04', 'C09'], 'bitarray_.py', "        x._bitstore = bitstring.bitstore_helpers.str_to_bitstore(s)._copy()", "        x._bitstore = bitstring.bitstore_helpers.str_to_bitstore(s)", ['A1'])
+V('A3_fromstring_flags_stream', ['C04'], 'bitstream.py', "        x = super().fromstring(s)\n        x._pos = 0\n        return x", "        x = super().fromstring(s)\n        x._pos = 0\n        x._bitstore.immutable = True\n        return x", ['A3'])
+V('A5_const_stream_overwrite', ['C04', 'C20'], 'bitstream.py', "    def __repr__(self) -> str:\n", "    def overwrite(self, bs: BitsType, /, pos: Optional[int] = None) -> None:\n        bs = Bits._create_from_bitstype(bs)\n        self._overwrite(bs, self._pos if pos is None else pos)\n\n    def __repr__(self) -> str:\n", ['A5'])
+V('A4_operand_mutated', ['C04'], 'bitarray_.py', "        bs = self._create_from_bitstype(bs)\n        self._bitstore |= bs._bitstore\n        return self",
+  "        bs = self._create_from_bitstype(bs)\n        bs._bitstore |= self._bitstore\n        self._bitstore = bs._bitstore\n        return self", ['A4', 'A1'])
+V('A4_join_returns_operand', ['C04'], 'bits.py', "        bs = self.__class__._create_from_bitstype(bs)\n        return bs.__add__(self)",
+  "        bs = self.__class__._create_from_bitstype(bs)\n        if len(self) == 0:\n            return bs\n        return bs.__add__(self)", ['A4'])
+V('A3_flag_set_in_bitarray_copy', ['C04'], 'bitarray_.py', "        assert s_copy._bitstore.immutable is False\n        return s_copy", "        s_copy._bitstore.immutable = True\n        return s_copy", ['A3'])
+V('A9_array_copy_shares', ['C04'], 'array_.py', "        a_copy.data = copy.copy(self.data)", "        a_copy.data = self.data", ['A9'])
+V('A9_array_slice_shares', ['C04'], 'array_.py', "                a.data = self.data[start * self._dtype.length: stop * self._dtype.length]",
+  "                a.data = self.data if (start, stop) == (0, len(self)) else self.data[start * self._dtype.length: stop * self._dtype.length]", ['A9'])
+S('A_S_rename_copy_local', ['C04'], 'bits.py', fn=rename_local('s_copy', 'duplicate'))
+S('A_S_shift_bitarray', ['C04'], 'bitarray_.py', fn=shift_lines)
+S('A_S_inline_copy', ['C04'], 'bits.py', "        s_copy = self.__class__()\n        s_copy._bitstore = self._bitstore._copy()\n        return s_copy",
+  "        s_copy = self.__class__()\n        s_copy._bitstore = BitStore(self._bitstore._bitarray)\n        return s_copy")
+S('A_S_claim_unconditional', ['C04'], 'bitarray_.py', "        if self._bitstore.immutable:\n            self._bitstore = self._bitstore._copy()\n            self._bitstore.immutable = False\n\n    def copy(",
+  "        if self._bitstore.immutable is True:\n            self._bitstore = self._bitstore._copy()\n            self._bitstore.immutable = False\n\n    def copy(")
